@@ -10,7 +10,7 @@
    PARTIAL beyond that: the same whole-command frame for the other key kinds and for .build/.kube/.volume units, the special handlers
    and the position clauses are decided by the direct oracle of tools/props/C02.py on implementation output together with
    whole-service correspondence with the converter model. *)
-From QV Require Import Model.Base Generated.Tables Model.Quote Model.Unquote Model.Unit Model.Names Model.Convert Spec.Docs Proofs.C07 Proofs.C02 Proofs.C02run Proofs.C02types.
+From QV Require Import Model.Base Generated.Tables Model.Quote Model.Unquote Model.Unit Model.Names Model.Convert Spec.Docs Proofs.C07 Proofs.C02 Proofs.C02run Proofs.C02types Proofs.Prio.
 
 (* every (key, option) pair of the look-up tables found in the source today is the documented pair of the documented kind *)
 Theorem C02_tables :
@@ -187,3 +187,7 @@ Theorem C02_network_frame_example :
   exec_of (convert_one (s2l "/usr/bin/podman") (fun _ => false) true false (add_entry net_unit c_NETWORK_SECTION (s2l "Internal") (s2l "yes")) (s2l "/d/a.network") TNetwork net_tbl)
     = Some [s2l "/usr/bin/podman network create --ignore --internal --label a=b systemd-a"].
 Proof. exact network_frame_example. Qed.
+
+(* the model's type priorities are those of main.rs today (regenerated table) ... *)
+Theorem C02_priority_table : length priority_table = 7%nat /\ forall t, assoc_str (type_name t) priority_table = Some (type_priority t).
+Proof. exact priority_table_ok. Qed.
